@@ -305,6 +305,9 @@ func checkC01(c *Ctx) (int, error) {
 			cases = append(cases, cs)
 		}
 	}
+	bulk := bulkCases(c, rng, "C01")
+	cases = append(cases, bulk...)
+	c.ev.Extra["bulk_streams_at_piece_boundaries"] = len(bulk) * bulk[0].Bulk * len(c.Levels)
 	for _, cs := range cases {
 		if cs.Data.Len > 0 {
 			c.ev.nontrivial(histString(cs.Ops) + "|" + cs.Tag + "|" + cs.Data.Class)
@@ -532,6 +535,23 @@ func checkC12(c *Ctx) (int, error) {
 		c.ev.nontrivial(histString(cs.Ops) + "|" + cs.Tag + fmt.Sprint(cs.FailAt))
 	}
 	cases = append(cases, soakCases(c, rng, "C12")...)
+	// a first stream long enough for every internal buffer to have grown or wrapped (token blocks
+	// filled, windows slid), then Reset and another long stream, compared with a fresh Writer's
+	nGrown := 0
+	for si, set := range accelSettings {
+		for ci, cl := range []string{"uniform", "nearuniform", "tokendense", "text", "deepclust"} {
+			n1 := pick(rng, []int{70000, 140000, 300000})
+			n2 := pick(rng, []int{70000, 140000, 200000})
+			cs := &WCase{ID: fmt.Sprintf("C12-grown-%d-%d", si, ci), Set: set, Tag: settingTag(set) + "|grown-" + cl, Cmp: "C12",
+				Data: DataSpec{Class: cl, Seed: rng.Int63n(1 << 30), Len: maxInt(n1, n2)},
+				Ops:  []Op{{Op: "W", N: n1}, {Op: []string{"C", "F"}[ci%2]}, {Op: "R"}, {Op: "W", N: n2}, {Op: "C"}}}
+			cs.Shadow = []Op{{Op: "W", N: n2}, {Op: "C"}}
+			cases = append(cases, cs)
+			nGrown++
+			c.ev.nontrivial(cs.Tag)
+		}
+	}
+	c.ev.Extra["reset_after_long_first_stream_cases"] = nGrown
 	c.ev.Rule = fmt.Sprintf("every history of %d calls over {Write(small|large), Flush, Close, Reset} with one or two Resets (also back to back) the last of which is followed by a history ending in Close (TLC, WriterModel), on %d of %d settings; one third with a destination failure inside h1; the bytes after Reset are compared with a fresh Writer's; distinct by (history, setting, failure)", maxLen, per, len(allWSettings))
 	c.ev.Exhaustive = true
 	for _, cs := range spread(cases) {
@@ -557,6 +577,27 @@ func soakCases(c *Ctx, rng *rand.Rand, prefix string) []*WCase {
 				Data: DataSpec{Class: []string{"text", "mixed", "digits"}[v%3], Seed: rng.Int63n(1 << 30), Len: n},
 				Ops:  []Op{{Op: "W", N: n}, {Op: "F"}, {Op: "C"}}}
 			cs.Shadow = cs.Ops
+			cases = append(cases, cs)
+			c.ev.nontrivial(cs.Tag)
+		}
+	}
+	return cases
+}
+
+// bulkCases: see execBulk.
+func bulkCases(c *Ctx, rng *rand.Rand, prefix string) []*WCase {
+	per := 12000
+	if prefix != "C16" {
+		per = 3000 // (the full count runs in C16, whose statement names Close; here a sample)
+	}
+	if c.Tier == "thorough" {
+		per = 150000
+	}
+	var cases []*WCase
+	for si, set := range accelSettings {
+		for ci, cl := range []string{"uniform", "nearuniform"} {
+			cs := &WCase{ID: fmt.Sprintf("%s-bulk-%d-%d", prefix, si, ci), Set: set, Tag: settingTag(set) + "|bulk-" + cl, Bulk: per,
+				Data: DataSpec{Class: cl, Seed: rng.Int63n(1 << 30), Len: 1}}
 			cases = append(cases, cs)
 			c.ev.nontrivial(cs.Tag)
 		}
